@@ -116,7 +116,7 @@ def observe(m, spec, seed):
 
 COQ_EXTRA = r'''From Coq Require Import FMapPositive.
 From Gen Require Import Elements SmilesTables.
-From Proofs Require Import WriterProofsTokens WriterProofsStream WriterProofsClosures.
+From Proofs Require Import WriterProofsTokens WriterProofsStream WriterProofsClosures WriterWfAtoms WriterWfStream.
 Import ListNotations.
 Open Scope Z_scope.
 (* the input functions w and tb are finite tables; they are looked up through a binary trie built once per case (the model calls
@@ -144,8 +144,10 @@ Definition wcase (g : mol) (w : list (Z * Z)) (spec : string) (tabs : stabs)
   end.
 (* additionally: the closure lists of the first component satisfy the hypothesis of C02_closure_numbers_consistent *)
 Definition wcase_ev (g : mol) (w : list (Z * Z)) (spec : string) (tabs : stabs)
-                 (strings : string) (order : list Z) (suffix : string) : bool :=
-  wcase g w spec tabs strings order suffix && events_ok g (wfun w) (tbfun order) (opts_of_spec spec).
+                 (strings : string) (order : list Z) (suffix : string) (writable : bool) : bool :=
+  wcase g w spec tabs strings order suffix && events_ok g (wfun w) (tbfun order) (opts_of_spec spec) &&
+  (* the hypothesis of C02_writer_stream_ok, as the harness sees it on the live molecule *)
+  Bool.eqb (atoms_writable_b g (opts_of_spec spec)) writable.
 (* the same through Writer.smiles_text / smiles_strings (the definitions the theorems speak about) *)
 Definition wcase_full (g : mol) (w : list (Z * Z)) (spec : string) (tabs : stabs)
                  (strings : string) (order : list Z) (suffix : string) : bool :=
@@ -186,9 +188,25 @@ def weight_recipes(m, rng):
             ('ties', {n: rng.randrange(3) for n in nums}), ('constant', {n: 0 for n in nums})]
 
 
-def case_term(mname, wname, tname, spec, ob, full=False, ev=False):
+def writable(m, spec):
+    """the hypothesis atoms_writable of C02_writer_stream_ok, computed on the live molecule"""
+    for n, a in m.atoms():
+        if a.isotope is not None and not 0 <= a.isotope <= 999:
+            return False
+        if a.implicit_hydrogens is not None and not 0 <= a.implicit_hydrogens <= 4:
+            return False
+        if 'A' not in spec and a.hybridization == 4 and a.atomic_symbol not in AROMATIC_READABLE:
+            return False
+        if 'm' in spec and not 0 <= n <= 9999:
+            return False
+    return True
+
+
+def case_term(mname, wname, tname, spec, ob, full=False, ev=False, m=None):
+    ev = ev and m is not None and not full
     return (f'{"wcase_full" if full else ("wcase_ev" if ev else "wcase")} {mname} {wname} {cs(spec)} {tname} '
-            f'{cs(",".join(ob["strings"]))} {lst(ob["order"], zraw)} {cs(ob["text"][len(ob["joined"]):])}')
+            f'{cs(",".join(ob["strings"]))} {lst(ob["order"], zraw)} {cs(ob["text"][len(ob["joined"]):])}' +
+            (f' {b(writable(m, spec))}' if ev else ''))
 
 
 def run_shards(name, shards, timeout=900):
@@ -411,7 +429,7 @@ def corr_writer(ck, mols):
             if wkey not in wdone:
                 wdone[wkey] = f'w{i}{wkey}'
                 md.append(f'Definition w{i}{wkey} : list (Z * Z) := {zmap_term(ob["w"])}.')
-            local.append(case_term(f'm{i}', wdone[wkey], f't{i}', spec, ob, full=(n_cases % 16 == 0), ev=(n_cases % 4 == 1)))
+            local.append(case_term(f'm{i}', wdone[wkey], f't{i}', spec, ob, full=(n_cases % 16 == 0), ev=(n_cases % 4 == 1), m=m))
             meta.append((name, m, spec, ob['text']))
             WRITTEN_TEXTS.append(ob['text'])
             n_cases += 1
@@ -434,7 +452,7 @@ def corr_writer(ck, mols):
                     continue
                 wn = f'w{i}c{rname}'
                 md.append(f'Definition {wn} : list (Z * Z) := {zmap_term(w)}.')
-                local.append(case_term(f'm{i}', wn, f't{i}', spec, ob, ev=name in CLOSURE_HEAVY))
+                local.append(case_term(f'm{i}', wn, f't{i}', spec, ob, ev=name in CLOSURE_HEAVY, m=m))
                 meta.append((name, m, f'weights={rname} {spec}', ob['text']))
                 WRITTEN_TEXTS.append(ob['text'])
                 n_cases += 1
